@@ -233,7 +233,7 @@ def impl_channel(kind, tag, s, attrname="v"):
 def corr_case(ctx, kind, s):
     """model channel vs implementation channel on the same string; compare what an XML reader sees"""
     tag = "label"
-    m = ctx.driver.call("chan.run", kind=kind, tag=tag, s=s, refs=[[k, f" {v} "] for k, v in XP.items()] + [["q", " /data/q "]])
+    m = ctx.driver.call("chan.run", kind=kind, tag=tag, s=s, refs=[[k, v] for k, v in XP.items()] + [["q", "/data/q"]])
     i = impl_channel(kind, tag, s)
     ctx.count(f"corr:{kind}")
     case = {"kind": "corr", "chan": kind, "s": s}
